@@ -14,3 +14,4 @@ INVARIANT LawCarriedMonotone
 INVARIANT LawAccepts
 INVARIANT LawImplConforms
 INVARIANT LawSchema
+INVARIANT LawReuse
